@@ -584,6 +584,7 @@ func judgeConc(r *vf.Run, w *world, c *concCase, logs [][]event) {
 	// sequential epilogue on the same manager: all uses are balanced, so every pair is at
 	// zero; acquire, release to zero, re-acquire under the full sequential oracle.
 	w.heal()
+	w.strays = true
 	if !w.quiesce() {
 		return
 	}
